@@ -65,3 +65,47 @@ Record gov_row := {
   gv_precalls : list string;     (* keeper calls made by statements before the guard *)
   gv_pre_write : bool            (* one of them is not a Get/Has/Is/Validate/Can… read *)
 }.
+
+(** ------------------------------------------------------------------ control-flow paths
+    (translate/goextract/paths.go -> Gen/GenHandlerPaths.v)
+
+    A predicate recognised in a condition, read through the bindings of locals:
+      GCan h m c     k.<h>(ctx, m, c)                      (a Can* permission helper; m, c normalised texts)
+      GAuth who via  <who> is the keeper's authority       (via ValidateAuthority / IsAuthority /
+                                                            GetAuthority() / the authority field)
+      GEq a b        a == b                                (operands normalised, sorted)
+      GCallOk t      the read-only call t returned no error / true
+      GAny l, GAll l disjunction / conjunction *)
+Inductive gpred :=
+| GCan (helper market caller : string)
+| GAuth (who via : string)
+| GEq (a b : string)
+| GCallOk (text : string)
+| GAny (l : list gpred)
+| GAll (l : list gpred).
+
+(** One event of a path: the branch taken at a recognised predicate (pass = the predicate holds on
+    this path), a call that can write state, a return (ok = the error result is nil), a panic, or
+    control flow the translator does not follow (goto, labels, select, go, fallthrough). *)
+Inductive ev :=
+| EvGuard (pass : bool) (g : gpred)
+| EvWrite (callee text : string)
+| EvRet (ok : bool)
+| EvPanic
+| EvUnstructured (what : string).
+
+Record hp_row := {
+  hp_kind : string;              (* "exchange" | "msg" | "keeper" *)
+  hp_module : string; hp_endpoint : string; hp_request : string;
+  hp_auth_who : list string;     (* every expression compared with the keeper's authority in the body *)
+  hp_has_field : bool;           (* the request type has an [Authority string] field *)
+  hp_paths : list (list ev)
+}.
+
+(** A Query handler: the calls it makes that can reach the store and are not read-only by name. *)
+Record qh_write := { qw_call : string; qw_text : string; qw_branched : bool }.
+Record qh_row := {
+  qh_module : string; qh_endpoint : string; qh_request : string;
+  qh_writes : list qh_write;
+  qh_unstructured : list string
+}.
